@@ -93,6 +93,28 @@ def check(run):
         for _ in range(3 if quick else 12):
             items = [rnd.choice(["\t%s", "%s\n", " %s ", "%s\r\n", "%s"]) % rnd.choice(acc[e]) for _ in range(rnd.randint(2, 4))]
             runs.append({"tag": "wiring", "argv": [codes(x) for x in [e, "sort"] + items]})
+    # long but valid arguments (300 / 1000 bytes): a size limit in front of the library must not exist in the CLI only
+    import re
+    longc = {}
+    for e in ECOS:
+        c = []
+        for t in rnd.sample(acc[e], min(len(acc[e]), 6)):
+            rs = list(re.finditer(r"[A-Za-z]+", t)) or list(re.finditer(r"[0-9]+", t))
+            if rs:
+                m = rs[-1]
+                c += [t[:m.end()] + t[m.end() - 1] * (L - len(t)) + t[m.end():] for L in (300, 1000) if L > len(t)]
+        longc[e] = c
+    longv = vlib.accept_filter(run, exe, longc, name="longarg")
+    for e in ECOS:
+        for t in longv[e][:3 if quick else 8]:
+            runs.append({"tag": "wiring", "argv": [codes(x) for x in [e, "compare", t, rnd.choice(acc[e])]]})
+            runs.append({"tag": "wiring", "argv": [codes(x) for x in [e, "sort", rnd.choice(acc[e]), t]]})
+            if rtexts[e]:
+                runs.append({"tag": "wiring", "argv": [codes(x) for x in [e, "contains", rnd.choice(rtexts[e]), t]]})
+    for sc in versgen.SCHEMES:
+        for t in longv[versgen.ECO_OF.get(sc, sc)][:2]:
+            runs.append({"tag": "wiring", "argv": [codes(x) for x in ["vers", "contains", "vers:%s/<%s" % (sc, t), ch[sc][3]]]})
+            runs.append({"tag": "wiring", "argv": [codes(x) for x in ["vers", "contains", "vers:%s/>=%s" % (sc, ch[sc][1]), t]]})
     ch2 = versgen.chains(run, chain=2)      # build metadata (+), tildes, epochs, upper case: nothing may be decoded or folded on the way
     for sc in versgen.SCHEMES:
         for _ in range(6 if quick else 40):
